@@ -497,6 +497,9 @@ fn sweep(valid: &[u8], maxd: usize) -> Vec<(Vec<u8>, String)> {
     let repl: Vec<(&str, Value)> = vec![
         ("null", Value::Null), ("empty-array", json!([])), ("empty-object", json!({})), ("array-of-empty-object", json!([{}])), ("array-of-null", json!([null])),
         ("string", json!("x")), ("empty-string", json!("")), ("number", json!(7)), ("negative", json!(-1)), ("bool", json!(true)),
+        // long text in which every even / every odd byte offset from 15 on falls inside a two-byte character
+        ("long-multibyte-odd", json!(format!("{}{}", "x".repeat(15), "é".repeat(300)))), ("long-multibyte-even", json!(format!("{}{}", "x".repeat(16), "é".repeat(300)))),
+        ("long-four-byte", json!(format!("{}{}", "x".repeat(13), "\u{10348}".repeat(150)))),
     ];
     let mut out = vec![];
     for p in ps.iter() {
